@@ -389,7 +389,7 @@ fn main() {
   ];
   ctx.exhaustive = false;
   let schema = hist::schema();
-  let n = ctx.n(14, 96);
+  let n = ctx.n(14, 60);
   ctx.run_cases("hist", n, |rng: &mut Rng, l: &mut Local, scratch| {
     let cfg = HistCfg {
       len: rng.urange(6, if quick { 14 } else { 20 }),
